@@ -18,7 +18,7 @@ pub struct Counters {
 }
 
 pub struct BulkheadAd {
-    svc: Option<Bulkhead<Inner>>,
+    svc: Option<Handles<Bulkhead<Inner>>>,
     cnt: Arc<Counters>,
 }
 impl BulkheadAd {
@@ -41,7 +41,11 @@ impl Adapter for BulkheadAd {
     fn gen_cfg(&mut self, rng: &mut Rng, size: Size) -> Value {
         let maxes: &[u64] = if size == Size::Quick { &[1, 2, 3] } else { &[1, 2, 3, 4] };
         let waits: &[i64] = &[-1, 0, 0, 1, 2, 3, 5];
-        json!({"max": *rng.pick(maxes), "wait": *rng.pick(waits), "ctor": rng.below(2)})
+        if rng.pct(6) {
+            // the `small` preset exactly as shipped: 10 concurrent calls, reject when full
+            return json!({"hm": rng.below(3), "max": 10, "wait": 0, "ctor": 2});
+        }
+        json!({"hm": rng.below(3), "max": *rng.pick(maxes), "wait": *rng.pick(waits), "ctor": rng.below(2)})
     }
     fn build(&mut self, cfg: &Value, sim: &mut Sim) {
         let max = cfg["max"].as_u64().unwrap() as usize;
@@ -49,8 +53,9 @@ impl Adapter for BulkheadAd {
         let cnt = Arc::new(Counters::default());
         self.cnt = cnt.clone();
         let (c1, c2, c3, c4) = (cnt.clone(), cnt.clone(), cnt.clone(), cnt.clone());
-        let mut b = BulkheadLayer::builder()
-            .max_concurrent_calls(max)
+        let preset = cfg["ctor"].as_u64().unwrap_or(0) == 2;
+        let mut b = if preset { BulkheadLayer::small() } else { BulkheadLayer::builder().max_concurrent_calls(max) };
+        b = b
             .on_call_permitted(move |cc| {
                 c1.permitted.fetch_add(1, Ordering::SeqCst);
                 c1.last_cc.store(cc, Ordering::SeqCst);
@@ -64,13 +69,15 @@ impl Adapter for BulkheadAd {
             .on_call_failed(move |_| {
                 c4.failed.fetch_add(1, Ordering::SeqCst);
             });
-        if wait == 0 && cfg["ctor"].as_u64().unwrap_or(0) == 1 {
+        if preset {
+            // nothing: the preset's own settings
+        } else if wait == 0 && cfg["ctor"].as_u64().unwrap_or(0) == 1 {
             b = b.reject_when_full();
         } else if wait >= 0 {
             b = b.max_wait_duration(Duration::from_millis(wait as u64));
         }
         let layer = b.build();
-        self.svc = Some(layer.layer(Inner::new(&sim.w)));
+        self.svc = Some(Handles::new(layer.layer(Inner::new(&sim.w)), cfg["hm"].as_u64().unwrap_or(0)));
         let cnt2 = cnt.clone();
         sim.obs = Some(Box::new(move || {
             let mut m = Obj::new();
@@ -85,11 +92,12 @@ impl Adapter for BulkheadAd {
     }
     fn mk(&mut self, req: &Req) -> CallFut {
         // every caller uses its own clone of the one bulkhead
-        let mut s = self.svc.as_ref().unwrap().clone();
-        let w = futures::task::noop_waker();
-        let mut cx = std::task::Context::from_waker(&w);
-        let _ = s.poll_ready(&mut cx);
-        let f = s.call(req.clone());
+        let f = self.svc.as_mut().unwrap().with(|s| {
+            let w = futures::task::noop_waker();
+            let mut cx = std::task::Context::from_waker(&w);
+            let _ = s.poll_ready(&mut cx);
+            s.call(req.clone())
+        });
         Box::pin(async move { map_res(f.await) })
     }
     fn params(&self, cfg: &Value, size: Size, rng: &mut Rng) -> DriveParams {
